@@ -73,13 +73,13 @@ Definition example_run : list event :=
    EInClose; EStop; EInClosedSeen; EAckerAbort; ECollected; EAborter; EClose 2; EFinished].
 
 Lemma example_lemma :
-  exists s, reach_by (mkParams 2 false) example_run s /\ in_contract example_run /\ distinct_input example_run /\
+  exists s, reach_by (mkParams 2 false true) example_run s /\ in_contract example_run /\ distinct_input example_run /\
             finished_in example_run = true /\
             taken_of example_run = [1; 2]%N /\ consumed_of example_run = [1; 2]%N /\ handed_of example_run = [] /\
             sent_on 1 example_run = [1%N] /\ sent_on 2 example_run = [1; 2]%N /\
             h_los s = [(2%nat, [1; 2]%N); (1%nat, [])].
 Proof.
-  destruct (run (mkParams 2 false) init example_run) as [s|] eqn:E; [|vm_compute in E; discriminate E].
+  destruct (run (mkParams 2 false true) init example_run) as [s|] eqn:E; [|vm_compute in E; discriminate E].
   exists s. split; [exact E|]. vm_compute in E. inversion E; subst s. clear E.
   split; [unfold in_contract, example_run; simpl; intuition discriminate|].
   split; [unfold distinct_input; simpl; repeat constructor; simpl; intuition discriminate|].
